@@ -21,6 +21,67 @@ func newFieldEffects(p *core.Program) *fieldEffects {
 	fe := &fieldEffects{p: p, reads: map[*types.Func]map[*types.Var]bool{}, writes: map[*types.Func]map[*types.Var]bool{}}
 	callees := map[*types.Func][]*types.Func{}
 	var order []*types.Func
+	// which functions write elements of a map they are given (ext[k] = v, delete(ext, k)),
+	// themselves or by handing the parameter on: a caller that passes a member's map has
+	// that member written
+	mapParam := map[*types.Func]map[int]bool{}
+	paramIndex := func(fn *types.Func, v *types.Var) int {
+		sig := fn.Type().(*types.Signature)
+		for i := 0; i < sig.Params().Len(); i++ {
+			if sig.Params().At(i) == v {
+				return i
+			}
+		}
+		return -1
+	}
+	for changed := true; changed; {
+		changed = false
+		for _, fd := range p.AllFuncs() {
+			info := fd.Pkg.TypesInfo
+			mark := func(e ast.Expr) {
+				v := core.VarOf(info, e)
+				if v == nil {
+					return
+				}
+				if _, isMap := v.Type().Underlying().(*types.Map); !isMap {
+					return
+				}
+				if i := paramIndex(fd.Obj, v); i >= 0 {
+					if mapParam[fd.Obj] == nil {
+						mapParam[fd.Obj] = map[int]bool{}
+					}
+					if !mapParam[fd.Obj][i] {
+						mapParam[fd.Obj][i] = true
+						changed = true
+					}
+				}
+			}
+			ast.Inspect(fd.Decl.Body, func(n ast.Node) bool {
+				switch x := n.(type) {
+				case *ast.AssignStmt:
+					for _, l := range x.Lhs {
+						if ix, ok := ast.Unparen(l).(*ast.IndexExpr); ok {
+							mark(ix.X)
+						}
+					}
+				case *ast.CallExpr:
+					if id, ok := x.Fun.(*ast.Ident); ok && id.Name == "delete" && len(x.Args) == 2 {
+						if _, isB := info.Uses[id].(*types.Builtin); isB {
+							mark(x.Args[0])
+						}
+					}
+					if fn := core.Callee(info, x); fn != nil && mapParam[fn.Origin()] != nil {
+						for i, a := range x.Args {
+							if mapParam[fn.Origin()][i] {
+								mark(a)
+							}
+						}
+					}
+				}
+				return true
+			})
+		}
+	}
 	for _, fd := range p.AllFuncs() {
 		info := fd.Pkg.TypesInfo
 		r, w := map[*types.Var]bool{}, map[*types.Var]bool{}
@@ -63,6 +124,34 @@ func newFieldEffects(p *core.Program) *fieldEffects {
 			}
 			return true
 		}
+		// mapAlias: an element store through a local that holds a member's map (ext := a.Ext;
+		// ext[k] = v) writes that member
+		mapAlias := func(e ast.Expr, w map[*types.Var]bool) {
+			id, ok := ast.Unparen(e).(*ast.Ident)
+			if !ok {
+				return
+			}
+			v, _ := info.Uses[id].(*types.Var)
+			if v == nil || v.IsField() {
+				return
+			}
+			if _, isMap := v.Type().Underlying().(*types.Map); !isMap {
+				return
+			}
+			if ld == nil {
+				ld = core.NewLocalDefs(info, fd.Decl.Body)
+			}
+			for _, d := range ld.All(v) {
+				if d.RHS == nil || d.N != 1 {
+					continue
+				}
+				if sel, ok := ast.Unparen(d.RHS).(*ast.SelectorExpr); ok {
+					if f := core.FieldOf(info, sel); f != nil && !freshLocal(sel) {
+						w[f] = true
+					}
+				}
+			}
+		}
 		ast.Inspect(fd.Decl.Body, func(n ast.Node) bool {
 			switch x := n.(type) {
 			case *ast.AssignStmt:
@@ -73,6 +162,7 @@ func newFieldEffects(p *core.Program) *fieldEffects {
 					}
 					if ix, ok := l.(*ast.IndexExpr); ok {
 						l = ast.Unparen(ix.X)
+						mapAlias(l, w)
 					}
 					if sel, ok := l.(*ast.SelectorExpr); ok {
 						if f := core.FieldOf(info, sel); f != nil {
@@ -98,6 +188,25 @@ func newFieldEffects(p *core.Program) *fieldEffects {
 			case *ast.CallExpr:
 				if fn := core.Callee(info, x); fn != nil && core.InModule(fn.Pkg()) {
 					callees[fd.Obj] = append(callees[fd.Obj], fn)
+					for i, a := range x.Args {
+						if mapParam[fn.Origin()][i] {
+							if sel, ok := ast.Unparen(a).(*ast.SelectorExpr); ok {
+								if f := core.FieldOf(info, sel); f != nil && !freshLocal(sel) {
+									w[f] = true
+								}
+							}
+						}
+					}
+				}
+				if id, ok := x.Fun.(*ast.Ident); ok && id.Name == "delete" && len(x.Args) == 2 {
+					if _, isB := info.Uses[id].(*types.Builtin); isB {
+						if sel, ok := ast.Unparen(x.Args[0]).(*ast.SelectorExpr); ok {
+							if f := core.FieldOf(info, sel); f != nil && !freshLocal(sel) {
+								w[f] = true
+							}
+						}
+						mapAlias(x.Args[0], w)
+					}
 				}
 			}
 			return true
